@@ -189,11 +189,15 @@ proof fn lemma_cell_surj(i: int, nh: int, nb: int)
     if q < 0 { assert(q * nb <= -nb) by (nonlinear_arith) requires q <= -1, nb > 0; }
 }
 
+const DEFAULT_UPDATE_SEED : u64 = 9001 ;
+
 const MAX_TABLE_ENTRIES : usize = 1 << 30 ;
+
 
 
 struct CountMinSketch < T : CountMinValue > {
 num_hashes : u8 , num_buckets : u32 , seed : u64 , seed_hash : u16 , total_weight : T , counts : Vec < T > , hash_seeds : Vec < u64 > , }
+
 
 
 spec fn fits<T: CountMinValue>(c: T, w: T) -> bool { T::in_range(c.val() + w.val()) }
@@ -247,8 +251,35 @@ num_hashes , num_buckets , seed , seed_hash , total_weight : T :: ZERO , counts 
 }
 
 
+
+    fn new ( num_hashes : u8 , num_buckets : u32 ) -> ( r : Self ) requires cm_law :: < T > ( ) , num_hashes > 0 , num_buckets >= 3 , ( num_hashes as int ) * ( num_buckets as int ) < MAX_TABLE_ENTRIES , seed_hash_spec ( DEFAULT_UPDATE_SEED ) != 0 , ensures r . wf ( ) , r . num_hashes == num_hashes , r . num_buckets == num_buckets , r . seed == DEFAULT_UPDATE_SEED ,
+/*@C18.cm_fixed_size*/ r . counts @ . len ( ) == ( num_hashes as int ) * ( num_buckets as int ) ,
+/*@C08.empty_model*/ r . models ( Seq :: < Ev > :: empty ( ) ) , {
+Self :: with_seed ( num_hashes , num_buckets , DEFAULT_UPDATE_SEED ) }
+
+
+    fn with_seed ( num_hashes : u8 , num_buckets : u32 , seed : u64 ) -> ( r : Self ) requires cm_law :: < T > ( ) , num_hashes > 0 , num_buckets >= 3 , ( num_hashes as int ) * ( num_buckets as int ) < MAX_TABLE_ENTRIES , seed_hash_spec ( seed ) != 0 , ensures r . wf ( ) , r . num_hashes == num_hashes , r . num_buckets == num_buckets , r . seed == seed ,
+/*@C18.cm_fixed_size*/ r . counts @ . len ( ) == ( num_hashes as int ) * ( num_buckets as int ) ,
+/*@C08.empty_model*/ r . models ( Seq :: < Ev > :: empty ( ) ) , {
+let entries = entries_for_config ( num_hashes , num_buckets ) ;
+Self :: make ( num_hashes , num_buckets , seed , entries ) }
+
+
+    fn num_hashes ( & self ) -> ( r : u8 ) ensures r == self . num_hashes , {
+self . num_hashes }
+
+
+    fn num_buckets ( & self ) -> ( r : u32 ) ensures r == self . num_buckets , {
+self . num_buckets }
+
+
+    fn seed ( & self ) -> ( r : u64 ) ensures r == self . seed , {
+self . seed }
+
+
     fn is_empty ( & self ) -> ( r : bool ) requires cm_law :: < T > ( ) , ensures r == ( self . total_weight . val ( ) == 0 ) , {
 self . total_weight == T :: ZERO }
+
 
 
     fn update < I : Hash > ( & mut self , item : I ) requires old ( self ) . wf ( ) , T :: in_range ( old ( self ) . total_weight . val ( ) + 1 ) , forall | i : int | 0 <= i < old ( self ) . counts @ . len ( ) ==> # [ trigger ] fits ( old ( self ) . counts @ [ i ] , T :: ONE ) , ensures final ( self ) . wf ( ) ,
@@ -259,14 +290,17 @@ self . update_with_weight ( item , T :: ONE ) ;
 }
 
 
+
     fn lower_bound < I : Hash > ( & self , item : I ) -> ( r : T ) requires self . wf ( ) , ensures
 /*@C08.one_sided*/ forall | h : Seq < Ev > | # [ trigger ] self . models ( h ) && nonneg ( h ) ==> truth ( h , item_key ( item ) ) <= r . val ( ) <= total ( h ) , {
 self . estimate ( item ) }
 
 
+
     fn total_weight ( & self ) -> ( r : T ) ensures
 /*@C08.total_exact*/ forall | h : Seq < Ev > | # [ trigger ] self . models ( h ) ==> r . val ( ) == total ( h ) , {
 self . total_weight }
+
 
 
     fn update_with_weight < I : Hash > ( & mut self , item : I , weight : T ) requires old ( self ) . wf ( ) , T :: in_range ( iabs ( weight . val ( ) ) ) , T :: in_range ( old ( self ) . total_weight . val ( ) + iabs ( weight . val ( ) ) ) , forall | i : int | 0 <= i < old ( self ) . counts @ . len ( ) ==> # [ trigger ] fits ( old ( self ) . counts @ [ i ] , weight ) , ensures final ( self ) . wf ( ) ,
@@ -322,6 +356,7 @@ lemma_push ( h , Ev :: Upd ( item_key ( item ) , weight . val ( ) ) ) ;
 }
 
 
+
     fn estimate < I : Hash > ( & self , item : I ) -> ( min : T ) requires self . wf ( ) , ensures
 /*@C08.estimate_min*/ forall | r : int | 0 <= r < self . num_hashes ==> min . val ( ) <= # [ trigger ] self . row_val ( item_key ( item ) , r ) ,
 /*@C08.estimate_min*/ exists | r : int | 0 <= r < self . num_hashes && min . val ( ) == # [ trigger ] self . row_val ( item_key ( item ) , r ) ,
@@ -361,6 +396,7 @@ assert ( self . counts @ [ cell ( r0 , b0 , self . num_buckets as int ) ] . val 
 min }
 
 
+
     fn merge ( & mut self , other : & CountMinSketch < T > ) requires old ( self ) . wf ( ) , other . wf ( ) , old ( self ) . num_hashes == other . num_hashes , old ( self ) . num_buckets == other . num_buckets , old ( self ) . seed == other . seed , T :: in_range ( old ( self ) . total_weight . val ( ) + other . total_weight . val ( ) ) , forall | i : int | 0 <= i < old ( self ) . counts @ . len ( ) ==> # [ trigger ] fits ( old ( self ) . counts @ [ i ] , other . counts @ [ i ] ) , ensures final ( self ) . wf ( ) ,
 /*@C18.cm_fixed_size*/ final ( self ) . same_config ( old ( self ) ) ,
 /*@C08.merge_cells*/ forall | i : int | 0 <= i < old ( self ) . counts @ . len ( ) ==> # [ trigger ] final ( self ) . counts @ [ i ] . val ( ) == old ( self ) . counts @ [ i ] . val ( ) + other . counts @ [ i ] . val ( ) ,
@@ -393,6 +429,7 @@ lemma_concat_upd ( h1 , h2 , 0 , 0 , self . num_buckets ) ;
 }
 }
 
+
 }
 
 impl<T: UnsignedCountMinValue> CountMinSketch<T> {
@@ -420,6 +457,7 @@ lemma_cell_bound ( r , b , self . num_hashes as int , self . num_buckets as int 
 }
 
 
+
     fn decay ( & mut self , decay : f64 ) requires old ( self ) . wf ( ) , decay_ok ( decay ) , ensures final ( self ) . wf ( ) ,
 /*@C18.cm_fixed_size*/ final ( self ) . same_config ( old ( self ) ) ,
 /*@C08.decay_cells*/ forall | i : int | 0 <= i < old ( self ) . counts @ . len ( ) ==> # [ trigger ] final ( self ) . counts @ [ i ] . val ( ) == decay_spec ( old ( self ) . counts @ [ i ] . val ( ) , decay ) ,
@@ -444,6 +482,7 @@ lemma_cell_bound ( r , b , self . num_hashes as int , self . num_buckets as int 
 }
 }
 
+
 }
 
 // hash leaves (C16): contracts define the spec functions
@@ -467,6 +506,7 @@ assert ( num_hashes as int * num_buckets as int <= 255 * 0xffff_ffff ) by ( nonl
 let entries = ( num_hashes as usize ) . checked_mul ( num_buckets as usize ) . expect ( "" ) ;
 assert! ( entries < MAX_TABLE_ENTRIES ) ;
 entries }
+
 
 
 // `&mut self` and `&other` cannot alias (borrow rules)
